@@ -1,0 +1,12 @@
+//go:build verif
+
+// Package verifshim re-exports internal packages for the verification harness, which
+// lives outside this module and therefore cannot import internal/... directly.
+// Every file in this package carries the verif build tag: an untagged build skips it.
+package verifshim
+
+import "github.com/nsqio/nsq/internal/protocol"
+
+func ByteToBase10(b []byte) (uint64, error) { return protocol.ByteToBase10(b) }
+func IsValidTopicName(s string) bool        { return protocol.IsValidTopicName(s) }
+func IsValidChannelName(s string) bool      { return protocol.IsValidChannelName(s) }
